@@ -3,7 +3,9 @@ package checks
 import (
 	"encoding/json"
 	"fmt"
+	"math"
 	"sort"
+	"strconv"
 	"strings"
 	"time"
 
@@ -24,10 +26,16 @@ func (c rCard) build() vcard.Card {
 	}
 	sort.Strings(keys)
 	for _, k := range keys {
-		if strings.HasSuffix(k, "\x01") {
+		if strings.HasSuffix(k, "\x01") || strings.HasSuffix(k, "\x02") {
 			continue
 		}
 		out[k] = []*vcard.Field{{Value: c[k]}}
+		if n, err := strconv.Atoi(c[k+"\x02"]); err == nil {
+			// key + \x02 holds a count: that many further instances with the first value, before the last one
+			for i := 0; i < n; i++ {
+				out[k] = append(out[k], &vcard.Field{Value: c[k]})
+			}
+		}
 		if v2, ok := c[k+"\x01"]; ok {
 			// the property occurs a second time (key + \x01 holds the second value)
 			out[k] = append(out[k], &vcard.Field{Value: v2})
@@ -64,6 +72,10 @@ func c07Cards() []rCard {
 				out = append(out, rCard{"VERSION": "4.0", "FN": "alice", "EMAIL": a, "EMAIL\x01": b})
 			}
 		}
+	}
+	// a property with very many instances of which only the last differs (no cap on how many are looked at)
+	for _, n := range []string{"127", "128", "300"} {
+		out = append(out, rCard{"VERSION": "4.0", "FN": "alice", "EMAIL": "bob", "EMAIL\x02": n, "EMAIL\x01": "alice@example.com"})
 	}
 	return out
 }
@@ -497,7 +509,7 @@ func c07Run(r *engine.Run) {
 	full := thorough(r)
 	cards := c07Cards()
 	pfs := c07PropFilters(full)
-	r.Rule = "Match: every query = outer test{'',anyof,allof,bogus} x 0..2 prop-filters, each name{FN,EMAIL,X-NONE} x [is-not-defined | inner test x 0..1 (thorough 0..2) text-matches over 7 texts (two with leading or trailing white space) x 6 match types (incl. bogus) x negate], on every card with FN/EMAIL each absent or one of 4 values (25 cards); pairs of prop-filters over a strided subset (quick) / denser subset (thorough). Filter: every ordered list of 0..4 cards from a 4-card pool x Limit{-1..5} x DataRequest{none,AllProp, every subset of {FN,EMAIL,X-NONE}} x representative queries. Non-trivial = the query's verdict differs across cards (Match) / at least one card matches (Filter); distinct by (query, card)."
+	r.Rule = "Match: every query = outer test{'',anyof,allof,bogus} x 0..2 prop-filters, each name{FN,EMAIL,X-NONE} x [is-not-defined | inner test x 0..1 (thorough 0..2) text-matches over 7 texts (two with leading or trailing white space) x 6 match types (incl. bogus) x negate], on every card with FN/EMAIL each absent or one of 4 values (25 cards); pairs of prop-filters over a strided subset (quick) / denser subset (thorough). Filter: every ordered list of 0..4 cards from a 4-card pool x Limit{-1..5, MaxInt64/2, MaxInt64} x DataRequest{none,AllProp, every subset of {FN,EMAIL,X-NONE}} x representative queries. Non-trivial = the query's verdict differs across cards (Match) / at least one card matches (Filter); distinct by (query, card)."
 	r.Explanation = "carddav.Match and carddav.Filter run on every generated case and are compared with a three-valued RFC 6352 reference (unknown enumeration => error required unless the verdict is the same either way); arguments are deep-compared before/after"
 	r.Assumptions = []string{"param-filters are not part of matching in the statement"}
 	r.Extra["prop_filters"] = len(pfs)
@@ -624,7 +636,7 @@ func c07Run(r *engine.Run) {
 		{PropFilters: []carddav.PropFilter{{Name: "FN", Test: "bogus", TextMatches: []carddav.TextMatch{{Text: "a"}}}}},
 		{}, // anyof over nothing: matches none
 	}
-	limits := []int{-1, 0, 1, 2, 3, 4, 5}
+	limits := []int{-1, 0, 1, 2, 3, 4, 5, math.MaxInt64 / 2, math.MaxInt64} // (no limits around 2^31..2^40: a change that allocates by the limit would take the checker down with it instead of panicking)
 	nCase := len(lists) * len(limits) * len(reqs) * len(queries)
 	r.Extra["filter_cases"] = nCase
 	r.Parallel(nCase, func(i int, s *engine.Shard) {
